@@ -2,8 +2,8 @@
    Only statements and `exact`; the lemmas live in Proofs/. *)
 From V.Lib Require Import Bytes.
 From V.Gen Require Import Consts.
-From V.Model Require Import Authz Redirect.
-From V.Proofs Require Import RedirectProofs.
+From V.Model Require Import Authz Redirect GoPath.
+From V.Proofs Require Import RedirectProofs GoPathProofs.
 Open Scope N_scope.
 
 (* the scanner in Model/Redirect.v is written for exactly this literal (regenerated from source) *)
@@ -18,6 +18,21 @@ Print Assumptions c06_regex_literal.
 Theorem c06_relative : forall r, is_valid_relative r = true -> browser_same_host r = true.
 Proof. exact valid_relative_same_host. Qed.
 Print Assumptions c06_relative.
+
+(* ... and so does what the browser actually receives: http.Redirect rewrites a target without scheme
+   and host (path.Clean on the part before '?', trailing slash kept, bytes >= 0x80 escaped) before it
+   sets the Location header.  For EVERY accepted relative target and either verdict of net/url.Parse,
+   the header still reads as a path on the current host. *)
+Theorem c06_location_header : forall parse_ok r,
+  is_valid_relative r = true -> browser_same_host (location_header parse_ok r) = true.
+Proof. exact redirect_location_same_host. Qed.
+Print Assumptions c06_location_header.
+
+(* the rewriting is not the identity on accepted targets: "/a/b/..?q=/.." is accepted and sent as "/a?q=/.." *)
+Example c06_location_header_nonvacuous :
+  is_valid_relative [47;97;47;98;47;46;46;63;113;61;47;46;46] = true /\
+  location_header true [47;97;47;98;47;46;46;63;113;61;47;46;46] = [47;97;63;113;61;47;46;46].
+Proof. split; vm_compute; reflexivity. Qed.
 
 (* an accepted target is non-empty and either relative (previous theorem) or an http(s) URL that
    net/url parses and whose Hostname()/Port() satisfy the whitelist rules *)
